@@ -82,6 +82,12 @@ def run(ctx: Context) -> None:
             _on_cells_only(ctx, mp, flow, ravels[0], 'R19.1', "make_poly_collection pairs values with cell polygons")
         ok = len(ravels) == 1 and len(ravels[0].args) == 1 and flow.reaches(ravels[0].args[0], lambda n: isinstance(n, ast.Call) and (callee(ctx, mp, n) or '').endswith('name_to_data_array'))
         ctx.check('R19.1', ok, "the variable (by name or as an array, checked against the dataset) is flattened by the convention's ravel", mp, ravels[0] if ravels else mp.node)
+        n2d = [c for c in calls_in(mp) if (callee(ctx, mp, c) or '').endswith('name_to_data_array')]
+        given = n2d[0].args[1] if len(n2d) == 1 and len(n2d[0].args) == 2 else None
+        alts = set(flow.alternatives(given)) if given is not None else set()
+        ctx.check('R19.1', alts == {('param', dap)}, "what is checked against the dataset's grids is the variable as the caller gave it: nothing relabels or reshapes it first "
+                  "(a 1-D array that merely has as many entries as there are cells is not cell data)", mp, n2d[0] if n2d else mp.node,
+                  construct=f"name_to_data_array receives {sorted(map(str, alts))}")
         raises = [n for n in walk_no_nested(mp.node) if isinstance(n, ast.Raise)]
         dims_guard = []
         for r in raises:
